@@ -65,12 +65,16 @@ static unsigned violations, checks;
 
 #define BAD(...) do { violations++; printf("!C19 backend "); printf(__VA_ARGS__); printf("\n"); } while (0)
 
+static spi_device_handle_t current_dev;   // the device named by the request under test
+static void *current_dev_fwd(void) { return current_dev; }
+
 static uint32_t rng = 12345;
 static uint8_t rnd8(void) { rng = rng * 1664525u + 1013904223u; return (uint8_t) (rng >> 24); }
 
 // interposed ioctl for the Linux backend (the source is compiled with -Dioctl=sx_fake_ioctl)
 int sx_fake_ioctl(int fd, unsigned long request, void *arg) {
-  (void) fd; (void) request;
+  (void) request;
+  if (current_dev_fwd() && fd != *(int *) current_dev_fwd()) BAD("linux backend used file descriptor %d, the request names %d", fd, *(int *) current_dev_fwd());
   struct spi_ioc_transfer *tr = arg;
   n_trans++;
   frame_len = tr->len;
@@ -88,7 +92,7 @@ int sx_fake_ioctl(int fd, unsigned long request, void *arg) {
 
 // stub for the ESP backend: one transaction = address byte (8 address bits), then `length` bits
 esp_err_t spi_device_polling_transmit(spi_device_handle_t handle, spi_transaction_t *t) {
-  (void) handle;
+  if (handle != current_dev) BAD("esp backend sent a transaction to a device other than the one of the request");
   n_trans++;
   size_t n = t->length / 8;
   frame[0] = (uint8_t) t->addr;
@@ -102,6 +106,17 @@ esp_err_t spi_device_polling_transmit(spi_device_handle_t handle, spi_transactio
   return ESP_OK;
 }
 
+// the rest of the ESP-IDF calls a backend might use: every one of them must name the device of the request
+esp_err_t spi_device_acquire_bus(spi_device_handle_t device, TickType_t wait) {
+  (void) wait;
+  if (device != current_dev) BAD("esp backend acquired the bus for a device other than the one of the request");
+  return ESP_OK;
+}
+void spi_device_release_bus(spi_device_handle_t dev) {
+  if (dev != current_dev) BAD("esp backend released the bus of a device other than the one of the request");
+}
+esp_err_t spi_device_transmit(spi_device_handle_t handle, spi_transaction_t *t) { return spi_device_polling_transmit(handle, t); }
+
 typedef struct {
   const char *name;
   int (*rr)(int, void *, size_t, uint32_t *);
@@ -113,9 +128,12 @@ typedef struct {
 
 static int fd_storage = 3;
 
+static int fd_storage2 = 4;
 static void test_backend(const backend_t *b) {
   void *dev = &fd_storage;
   for (int reg = 0; reg <= 0x7f; reg++) {
+    dev = (reg & 1) ? (void *) &fd_storage2 : (void *) &fd_storage;   // two radios, alternating
+    current_dev = dev;
     for (int fail = 0; fail <= 1; fail++) {
       // register reads and writes, lengths 0..5
       for (size_t n = 0; n <= 5; n++) {
